@@ -99,6 +99,14 @@ class DataArray:
         self.data += (o.data if isinstance(o, DataArray) else o)
         return self
 
+    def transpose(self, *dims):
+        """xarray semantics: a NEW array with the dimensions in the requested order (not in place)."""
+        dims = tuple(dims) if dims else tuple(reversed(self.dims))
+        if set(dims) != set(self.dims):
+            raise ValueError(f"{dims} must be a permuted list of {self.dims}")
+        axes = [self.dims.index(d) for d in dims]
+        return DataArray(symnp.transpose(self.data, axes), dims=dims, attrs=self.attrs, coords=dict(self.coords))
+
     def clip(self, min=None, max=None):  # noqa: A002
         return self._wrap(symnp.clip(self.data, min, max))
 
